@@ -48,7 +48,7 @@ add(Contract(
     "yarl._parse:make_netloc",
     [("user", OPT(STR)), ("password", OPT(STR)), ("host", OPT(STR)), ("port", OPT(INT)), ("encode", BOOL)],
     spec=spec_parse.make_netloc, requires=spec_parse.make_netloc_requires,
-    props=("C07", "C17", "C11", "C03", "C19"), opaque=True, shape=STR,
+    props=("C07", "C17", "C11", "C03", "C19", "C09"), opaque=True, shape=STR,
     note="RFC 3986 3.2 assembly of the authority"))
 
 # ---------------------------------------------------------------- yarl/_url.py: ports (C17)
@@ -59,7 +59,8 @@ for _name in ("explicit_port", "port", "is_default_port"):
 for _name in ("scheme", "raw_authority", "raw_user", "raw_password", "raw_host", "raw_path",
               "raw_query_string", "raw_fragment", "absolute", "host_subcomponent"):
     add(Contract(f"yarl._url:URL.{_name}", [("self", URLT)], spec=getattr(spec_url, _name),
-                 requires=spec_url.netloc_ok, props=("C07", "C09", "C19")))
+                 requires=spec_url.netloc_ok if _name in ("raw_user", "raw_password", "raw_host", "host_subcomponent") else None,
+                 props=("C07", "C09", "C19")))
 add(Contract("yarl._url:URL.host_port_subcomponent", [("self", URLT)], spec=spec_url.host_port_subcomponent,
              requires=spec_url.netloc_ok, props=("C17", "C16", "C19")))
 add(Contract("yarl._url:URL.__str__", [("self", URLT)], spec=spec_url.str_,
@@ -246,3 +247,18 @@ add(Lemma(spec_quote.lemma_canonical_is_fixed, [("quoter", _ALLQ), ("B", BYTES),
 add(Lemma(spec_quote.lemma_value_preserved, [("quoter", _ALLQ), ("B", BYTES), ("p", INT)],
           requires=spec_quote.lemma_requires, props=("C02",),
           note="units decode to the consumed value; protected delimiters keep their literal/escaped status"))
+
+add(Contract("yarl._url:URL.with_host", [("self", URLT), ("host", UNION(STR, CONST(None, 1)))],
+             spec=spec_url.with_host, requires=spec_url.netloc_ok, raises=(TypeError, ValueError), props=("C11", "C16", "C19")))
+add(Contract("yarl._url:URL.with_path",
+             [("self", URLT), ("path", STR), ("encoded", BOOL), ("keep_query", BOOL), ("keep_fragment", BOOL)],
+             spec=spec_url.with_path, props=("C11", "C15", "C19")))
+add(Contract("yarl._url:URL.origin", [("self", URLT)], spec=spec_url.origin_, requires=spec_url.origin_requires,
+             raises=(ValueError,), props=("C11", "C19")))
+add(Contract("yarl._url:URL.is_absolute", [("self", URLT)], spec=spec_url.is_absolute, props=("C19",)))
+add(Contract("yarl._url:URL.__bool__", [("self", URLT)], spec=spec_url.bool_, props=("C19",)))
+
+add(Contract("yarl._url:URL.__getstate__", [("self", URLT)], spec=spec_url.getstate, props=("C09", "C19")))
+add(Contract("yarl._url:URL.__setstate__", [("self", "fresh-url"), ("state", "pickle-state")], spec=None,
+             spec_module=spec_url, native_pre=hooks.setstate_pre, native_post=hooks.setstate_post, props=("C09", "C19"),
+             note="self is the fresh object URL.__new__(cls) returns for the UNDEFINED sentinel (unpickling protocol)"))
